@@ -98,7 +98,12 @@ def worlds(chk, plans):
         for e in pick:
             k = (e["code"], tuple(e["dims"]), e["base"])
             if k not in again:
-                raise vlib.Inconclusive("rejected observation did not reproduce: %s %s" % (r, world_vec(e)))
+                # accepted when rendered alone: repeat the whole sequence in order
+                o3, b3 = replay_worlds(chk, allvec, RENDERERS)
+                again3 = {(e3["code"], tuple(e3["dims"]), e3["base"]): w3 for e3, w3 in b3 if e3["r"] == r}
+                if k not in again3:
+                    raise vlib.Inconclusive("rejected observation did not reproduce: %s %s" % (r, world_vec(e)))
+                again[k] = "after-earlier-renders-of-the-same-process:" + again3[k]
             chk.violation(world_key(e, again[k]),
                           "real %s output for world dims=%s base=%d code=%d rejected: %s (%d triangles; %d worlds of this "
                           "class in this run)" % (r, e["dims"], e["base"], e["code"], again[k], e["nt"], len(es)),
